@@ -515,6 +515,20 @@ def HistOk : Client × State → List Op → Prop
   | _, [] => True
   | w, op :: ops => OpOk w.1 w.2 op ∧ HistOk (seqStep w op) ops
 
+/-- What `didChangeConfiguration` needs of a document to bring it up to date — the STRUCTURE of the
+`DocumentState`, nothing about how current it is: a loaded document of the client's language,
+no identifier dictionary, the client's ignore request; closed documents not loaded. The text, all
+three configuration facets, the dictionaries, `Backend::config` and the last publication are
+arbitrary (e.g. left behind by updates that pulled a configuration the client never announced). -/
+def WeakAt (c : Client) (s : State) (u : Url) : Prop :=
+  match c.buf u with
+  | none => s.docs u = none ∧ (s.outbox u = .empty ∨ s.outbox u = .never)
+  | some (t, l) =>
+    (l = .ts → t.idents = 0) ∧
+    if l = .unknown then s.docs u = none ∧ s.outbox u = .empty
+    else ∃ d, s.docs u = some d ∧ d.lang = l ∧ d.dictIdent = none ∧ d.identDict = 0 ∧
+      d.ignored = c.ign u
+
 /-- the client side of an arbitrary schedule -/
 def clientOfAct (c : Client) : Act → Client
   | .recv m => clientStep c m
